@@ -663,3 +663,46 @@ func GenProgram(t *tape.Tape, cfg GenCfg) []Op {
 	}
 	return g.ops
 }
+
+// Perturb returns a copy of a well-formed program with the same structure
+// and a few arguments changed (colours, register values, coordinates, the
+// Reset metadata): "the same template, slightly different content", which is
+// what defeats a cache or a skipped re-initialisation keyed on too little.
+func Perturb(t *tape.Tape, prog []Op) []Op {
+	out := make([]Op, 0, len(prog)+1)
+	if len(prog) == 0 || prog[0].K != KReset {
+		out = append(out, Op{K: KReset, VB: GenViewBox(t), Pal: GenPalette(t)})
+	}
+	out = append(out, prog...)
+	n := 1 + t.Intn(4)
+	for i := 0; i < n; i++ {
+		o := &out[t.Intn(len(out))]
+		switch o.K {
+		case KReset:
+			if t.Bool() {
+				o.VB = GenViewBox(t)
+			} else {
+				o.Pal = GenPalette(t)
+			}
+		case KSetCReg:
+			if rgba, ok := o.C.RGBA(); ok || rgba.A != 0 {
+				o.C = ivg.RGBAColor(genRGBA(t, t.Pick(2, 1, 1, 2, 2)))
+			}
+		case KSetNReg:
+			o.F[0] = float32(t.Intn(65)) / 64
+		case KGradLinear, KGradCircular, KGradElliptical, KGradRaw:
+			if len(o.Stops) > 0 {
+				st := append([]generate.GradientStop(nil), o.Stops...)
+				st[t.Intn(len(st))].Color = genRGBA(t, t.Pick(2, 1, 1, 2, 2))
+				o.Stops = st
+			}
+		default:
+			if o.K.IsDraw() || o.K == KStartPath {
+				if na := o.K.NArgs(); na > 0 && o.K != KAbsArcTo && o.K != KRelArcTo {
+					o.F[t.Intn(na)] = LoCoord(t)
+				}
+			}
+		}
+	}
+	return out
+}
